@@ -2144,6 +2144,11 @@ class MSSQLCompiler(compiler.SQLCompiler):
             return select._fetch_clause
 
     def _use_top(self, select):
+        # TOP is rendered by get_select_precolumns(), which only exists for
+        # a plain SELECT; a compound select (UNION etc.) has to use
+        # OFFSET / FETCH, otherwise its LIMIT is silently dropped
+        if not isinstance(select, expression.Select):
+            return False
         return (select._offset_clause is None) and (
             select._simple_int_clause(select._limit_clause)
             or (
@@ -2196,6 +2201,11 @@ class MSSQLCompiler(compiler.SQLCompiler):
                 **kw,
             )
 
+        elif not isinstance(select, expression.Select):
+            raise exc.CompileError(
+                "LIMIT / OFFSET on a compound select requires "
+                "SQL Server 2012 or later (OFFSET / FETCH)"
+            )
         else:
             return ""
 
@@ -2418,7 +2428,7 @@ class MSSQLCompiler(compiler.SQLCompiler):
             self.is_subquery()
             and not self._use_top(select)
             and (
-                select._offset is None
+                select._offset_clause is None
                 or not self.dialect._supports_offset_fetch
             )
         ):
